@@ -118,6 +118,13 @@ def explore(ctx, depth):
         a = [rng.randrange(37) for _ in range(rng.randint(0, 8))]
         b = [rng.randrange(37) for _ in range(rng.randint(0, 6))]
         add(rng.choice(kinds[:3]), a, rng.choice(kinds[:3]), b, rng.random() < 0.3)
+    # long lists and tuples with many repetitions (longer than the enumeration itself)
+    for _ in range(20 if depth == 'quick' else 100):
+        base = [rng.randrange(37) for _ in range(rng.randint(1, 4))]
+        a = [rng.choice(base) for _ in range(rng.randint(37, 90))]
+        b = [rng.choice(base) for _ in range(rng.choice([0, 0, 40, 75]))] if rng.random() < 0.5 else [rng.randrange(37) for _ in range(rng.randint(0, 3))]
+        add(rng.choice(kinds[:2]), a, rng.choice(kinds[:3]), b, True)
+        add(rng.choice(kinds[:3]), b[:3], rng.choice(kinds[:2]), a, True)
     # non-category elements
     for _ in range(40):
         a = [rng.choice([None, rng.randrange(37)]) for _ in range(rng.randint(1, 3))]
@@ -141,6 +148,47 @@ def explore(ctx, depth):
             spec = [{'ok': b} for b in r['spec']] if isinstance(r['spec'], list) else [{'err': 'ValueError'}] * 37
             ctx.check(inp, impl, model, spec, nontrivial=nontrivial,
                       what='match is not "the category or one of its descendants is selected"')
+
+    # ---- argument objects reused and edited in place between calls (same size, other contents): every call answers for the contents it is given
+    pending = []
+    for _ in range(30 if depth == 'quick' else 300):
+        kind = rng.choice(['set', 'list'])
+        cur = rng.sample(range(37), rng.randint(1, 4))
+        obj = set(cats[i] for i in cur) if kind == 'set' else [cats[i] for i in cur]
+        other = set() if rng.random() < 0.5 else {cats[rng.randrange(37)]}
+        as_include = rng.random() < 0.5
+        for step in range(4):
+            def ask():
+                kw = {'include': obj, 'exclude': other} if as_include else {'include': other or None, 'exclude': obj}
+                return {'valid': canon(TC.valid(**kw)), 'match': [bool(TC.match(c, **kw)) for c in cats[:37]]}
+            got = call(ask)
+            idx = sorted(c.value - 1 for c in obj)
+            oth = sorted(c.value - 1 for c in other)
+            pending.append((got, idx if as_include else (oth if other else None), oth if as_include else idx, kind, step))
+            # edit in place, keeping the size
+            new = rng.randrange(37)
+            while cats[new] in obj:
+                new = rng.randrange(37)
+            if kind == 'set':
+                obj.discard(next(iter(obj))); obj.add(cats[new])
+            else:
+                obj[rng.randrange(len(obj))] = cats[new]
+    reqs2 = []
+    for got, inc, exc, kind, step in pending:
+        ji = None if inc is None else {'k': 'list', 'v': inc}
+        je = {'k': 'list', 'v': exc}
+        reqs2.append({'op': 'c11.valid', 'inc': ji, 'exc': je})
+        reqs2.append({'op': 'c11.match', 'inc': ji, 'exc': je})
+    resp2 = ctx.driver.ask(reqs2)
+    for k, (got, inc, exc, kind, step) in enumerate(pending):
+        rv, rm = resp2[2 * k], resp2[2 * k + 1]
+        want = {'ok': {'valid': sorted(rv['spec']['ok']), 'match': rm['spec']}} if 'ok' in rv['spec'] and isinstance(rm['spec'], list) else None
+        ctx.seen({'fn': 'reused argument object', 'kind': kind, 'step': step, 'include': inc, 'exclude': exc}, step > 0)
+        if want is not None and _strip(got) != want:
+            ctx.fail({'fn': 'valid/match with a reused argument object edited in place', 'kind': kind, 'step': step,
+                      'include': None if inc is None else [names[i] for i in inc], 'exclude': [names[i] for i in exc]},
+                     'valid / match do not answer for the current contents of an argument object that was edited in place since an earlier call',
+                     impl=_strip(got), expected=want['ok'])
 
     # ---- the 704 x 704 grid (thorough plan): masks, impl vs model vs spec
     if depth == 'thorough':
